@@ -19,11 +19,15 @@ import (
 	"os"
 	"os/exec"
 	"path/filepath"
+	"regexp"
+	"runtime"
+	"runtime/debug"
 	"sort"
 	"strings"
 	"time"
 
 	"verifsim/core"
+	"verifsim/raceorc"
 	"verifsim/tape"
 )
 
@@ -75,7 +79,7 @@ type BatchStats struct {
 }
 
 func die(code int, format string, a ...interface{}) {
-	fmt.Fprintf(os.Stderr, format+"\n", a...)
+	fmt.Fprintf(raceorc.Stderr(), format+"\n", a...)
 	os.Exit(code)
 }
 
@@ -83,22 +87,86 @@ func binaryName() string {
 	return filepath.Base(os.Args[0])
 }
 
+// guardedBody only exists to be found in goroutine dumps.
+//
+//go:noinline
+func guardedBody(f func()) { f() }
+
+var goroutineHdr = regexp.MustCompile(`^goroutine \d+ \[([^\],]+)`)
+
+// hungInDst inspects all goroutine stacks: if the goroutine running the engine is blocked on a
+// synchronisation primitive with dave/dst frames on its stack, nobody can ever wake it (the engine
+// body is the only code running dst there), so this is a deadlock inside dst, not slowness.
+func hungInDst() (fn string, stack string, ok bool) {
+	buf := make([]byte, 1<<20)
+	n := runtime.Stack(buf, true)
+	for _, g := range strings.Split(string(buf[:n]), "\n\n") {
+		if !strings.Contains(g, "main.guardedBody") {
+			continue
+		}
+		m := goroutineHdr.FindStringSubmatch(g)
+		if m == nil {
+			return "", "", false
+		}
+		switch m[1] {
+		case "sync.Mutex.Lock", "sync.RWMutex.Lock", "sync.RWMutex.RLock", "semacquire", "sync.Cond.Wait", "chan receive", "chan send", "select", "select (no cases)", "sync.WaitGroup.Wait":
+		default:
+			return "", "", false
+		}
+		for _, line := range strings.Split(g, "\n") {
+			if strings.HasPrefix(line, "github.com/dave/dst") {
+				fn = strings.TrimPrefix(strings.TrimPrefix(line, "github.com/dave/dst/"), "github.com/dave/dst")
+				if i := strings.LastIndex(fn, "("); i > 0 {
+					fn = fn[:i]
+				}
+				return fn + "|" + strings.Replace(m[1], " ", "_", -1), g, true
+			}
+		}
+		return "", "", false
+	}
+	return "", "", false
+}
+
+const hangProbe = 12 * time.Second
+
 func runOne(e *Engine, t *tape.Tape, tier string) *core.Run {
 	run := core.NewRun(e.Prop, t, tier)
 	done := make(chan struct{})
-	if e.Watchdog > 0 {
-		go func() {
-			select {
-			case <-done:
-			case <-time.After(e.Watchdog):
-				fmt.Fprintf(os.Stderr, "WATCHDOG property=%s seed=%d run exceeded %v\n", e.Prop, t.Seed, e.Watchdog)
-				os.Exit(2)
+	var engineCrash interface{}
+	go func() {
+		defer close(done)
+		defer func() {
+			if v := recover(); v != nil {
+				engineCrash = fmt.Sprintf("%v\n%s", v, debug.Stack())
 			}
 		}()
+		guardedBody(func() { e.Run(run) })
+	}()
+	start := time.Now()
+	timer := time.NewTimer(hangProbe)
+	defer timer.Stop()
+	for {
+		select {
+		case <-done:
+			if engineCrash != nil {
+				panic(engineCrash) // a defect of the harness itself: never a verdict about dst
+			}
+			return run
+		case <-timer.C:
+			if fn, stack, ok := hungInDst(); ok {
+				// the blocked goroutine is abandoned; its Run value is not read again
+				hr := core.NewRun(e.Prop, t, tier)
+				hr.Describe("the run never returned: its goroutine is blocked forever inside dst (nothing else runs that could wake it)")
+				hr.Fail(strings.ToLower(e.Prop)+"/hang", fn, "an operation blocked forever inside dst:\n%s", stack)
+				return hr
+			}
+			if e.Watchdog > 0 && time.Since(start) > e.Watchdog {
+				fmt.Fprintf(raceorc.Stderr(), "WATCHDOG property=%s seed=%d run exceeded %v\n", e.Prop, t.Seed, e.Watchdog)
+				os.Exit(2)
+			}
+			timer.Reset(5 * time.Second)
+		}
 	}
-	e.Run(run)
-	close(done)
-	return run
 }
 
 func writeJSON(path string, v interface{}) {
@@ -133,6 +201,7 @@ func cmdBatch(args []string) {
 	if e == nil {
 		die(2, "unknown property %q (not built into %s)", *prop, binaryName())
 	}
+	raceorc.CapturePath = filepath.Join(*out, fmt.Sprintf("fd2-%d.txt", *id))
 	if e.Init != nil {
 		if err := e.Init(); err != nil {
 			die(2, "engine init: %v", err)
@@ -383,10 +452,18 @@ func cmdShrink(args []string) {
 		return true
 	}
 	// confirm the original reproduces before spending the budget
-	if sig, used, v, desc, ev := test(append([]uint32(nil), best...)); sig != want {
-		die(2, "shrink: the recorded violation does not reproduce (got %q, want %q)", sig, want)
-	} else {
-		best, bestViol, bestDesc, bestEvents = used, v, desc, ev
+	confirmed := false
+	var gotSig string
+	for attempt := 0; attempt < 3 && !confirmed; attempt++ {
+		sig, used, v, desc, ev := test(append([]uint32(nil), best...))
+		gotSig = sig
+		if sig == want {
+			best, bestViol, bestDesc, bestEvents = used, v, desc, ev
+			confirmed = true
+		}
+	}
+	if !confirmed {
+		die(2, "shrink: the recorded violation does not reproduce (got %q, want %q)", gotSig, want)
 	}
 	orig := len(rf.Tape)
 	for progress := true; progress && time.Now().Before(deadline); {
